@@ -121,14 +121,14 @@ theorem readLoop_ok (n : Nat) (input : List UInt8) (v : VecSt) (c rest : List UI
 
 /-! ## The borsh reader -/
 
-/-- The shape predicate behind `borshDeRowOk` for the bytes reader. -/
+/-- The shape predicate behind `borshShapeRowOk` for the bytes reader. -/
 def shapeOk (limit : Nat) : BorshDe → Bool
   | .reader k _ (.minLen c) perByte _ => k == 4 && perByte && c ≤ limit
   | _ => false
 
-theorem shapeOk_of_rowOk {limit : Nat} {r : BorshDeRow} (h : borshDeRowOk limit r = true)
+theorem shapeOk_of_rowOk {limit : Nat} {r : BorshDeRow} (h : borshShapeRowOk limit r = true)
     (hk : r.kind = .byt) : shapeOk limit r.shape = true := by
-  unfold borshDeRowOk at h
+  unfold borshShapeRowOk at h
   unfold shapeOk
   split at h <;> simp_all
 
@@ -192,26 +192,26 @@ theorem borshShape_mem {rows : List BorshDeRow} {k : HipKind} {sh : BorshDe}
 
 /-- Under the row predicate the bytes row's shape satisfies `shapeOk`. -/
 theorem bytShape_ok {limit : Nat} {rows : List BorshDeRow}
-    (hok : rows.all (borshDeRowOk limit) = true) {sh : BorshDe}
+    (hok : rows.all (borshShapeRowOk limit) = true) {sh : BorshDe}
     (h : borshShape rows .byt = some sh) : shapeOk limit sh = true := by
   obtain ⟨r, hm, hk, rfl⟩ := borshShape_mem h
   exact shapeOk_of_rowOk (List.all_eq_true.mp hok r hm) hk
 
 /-- Under the row predicate the string row validates through the bytes reader. -/
 theorem strShape_ok {limit : Nat} {rows : List BorshDeRow}
-    (hok : rows.all (borshDeRowOk limit) = true) {sh : BorshDe}
+    (hok : rows.all (borshShapeRowOk limit) = true) {sh : BorshDe}
     (h : borshShape rows .str = some sh) : sh = .viaBytThenValidate := by
   obtain ⟨r, hm, hk, rfl⟩ := borshShape_mem h
   have := List.all_eq_true.mp hok r hm
-  unfold borshDeRowOk at this
+  unfold borshShapeRowOk at this
   split at this <;> simp_all
 
-/-! ## `borshDe` following a table whose rows pass `borshDeRowOk` -/
+/-! ## `borshDe` following a table whose rows pass `borshShapeRowOk` -/
 
 section Table
 variable {limit : Nat} {rows : List BorshDeRow} (valid : List UInt8 → Bool)
 
-theorem borshDe_byt (hok : rows.all (borshDeRowOk limit) = true) {sh : BorshDe}
+theorem borshDe_byt (hok : rows.all (borshShapeRowOk limit) = true) {sh : BorshDe}
     (h : borshShape rows .byt = some sh) (input : List UInt8) :
     borshDe valid rows .byt input = deShape sh input := by
   have hs := bytShape_ok hok h
@@ -219,7 +219,7 @@ theorem borshDe_byt (hok : rows.all (borshDeRowOk limit) = true) {sh : BorshDe}
   split at hs <;> try contradiction
   simp [borshDe, h]
 
-theorem borshDe_str (hok : rows.all (borshDeRowOk limit) = true) {sh : BorshDe}
+theorem borshDe_str (hok : rows.all (borshShapeRowOk limit) = true) {sh : BorshDe}
     (hb : borshShape rows .byt = some sh) (hs : (borshShape rows .str).isSome = true)
     (input : List UInt8) :
     borshDe valid rows .str input =
@@ -234,7 +234,7 @@ theorem borshDe_str (hok : rows.all (borshDeRowOk limit) = true) {sh : BorshDe}
   simp only [borshDe, hs', hb]
   rfl
 
-theorem borshDe_bound (hok : rows.all (borshDeRowOk limit) = true) (k : HipKind)
+theorem borshDe_bound (hok : rows.all (borshShapeRowOk limit) = true) (k : HipKind)
     (input : List UInt8) :
     (borshDe valid rows k input).maxRequest ≤ limit + 2 * input.length := by
   have key : ∀ sh, borshShape rows .byt = some sh →
@@ -259,11 +259,11 @@ theorem borshDe_bound (hok : rows.all (borshDeRowOk limit) = true) (k : HipKind)
     cases k with
     | byt => exact key _ hsome
     | str | os | path =>
-      unfold borshDeRowOk at hr
+      unfold borshShapeRowOk at hr
       split at hr <;> simp_all
   · simp [maxOf]
 
-theorem borshDe_err (hok : rows.all (borshDeRowOk limit) = true) (k : HipKind)
+theorem borshDe_err (hok : rows.all (borshShapeRowOk limit) = true) (k : HipKind)
     (hb : (borshShape rows .byt).isSome = true) (hk : (borshShape rows k).isSome = true)
     (input : List UInt8) (e : Err) (h : (borshDe valid rows k input).result = .error e) :
     e = .eof ∨ (k = .str ∧ e = .invalidData) := by
@@ -301,7 +301,7 @@ theorem borshDe_err (hok : rows.all (borshDeRowOk limit) = true) (k : HipKind)
       simp at h; subst h
       exact .inl (noimpl _ he')
   | os | path =>
-    unfold borshDeRowOk at hr
+    unfold borshShapeRowOk at hr
     split at hr <;> simp_all
 
 end Table
@@ -874,7 +874,7 @@ theorem deShape_inv {limit : Nat} {sh : BorshDe} (hs : shapeOk limit sh = true)
 section Table2
 variable {limit : Nat} {rows : List BorshDeRow} (valid : List UInt8 → Bool)
 
-theorem borshDe_str_ok (hok : rows.all (borshDeRowOk limit) = true) {sh : BorshDe}
+theorem borshDe_str_ok (hok : rows.all (borshShapeRowOk limit) = true) {sh : BorshDe}
     (hb : borshShape rows .byt = some sh) (hs : (borshShape rows .str).isSome = true)
     (input s rest : List UInt8) (h : (borshDe valid rows .str input).result = .ok (s, rest)) :
     valid s = true ∧ (deShape sh input).result = .ok (s, rest) := by
@@ -890,7 +890,7 @@ theorem borshDe_str_ok (hok : rows.all (borshDeRowOk limit) = true) {sh : BorshD
     · simp at h
   · simp at h
 
-theorem borshDe_str_of_ok (hok : rows.all (borshDeRowOk limit) = true) {sh : BorshDe}
+theorem borshDe_str_of_ok (hok : rows.all (borshShapeRowOk limit) = true) {sh : BorshDe}
     (hb : borshShape rows .byt = some sh) (hs : (borshShape rows .str).isSome = true)
     (input s rest : List UInt8) (hv : valid s = true)
     (h : (deShape sh input).result = .ok (s, rest)) :
@@ -901,5 +901,14 @@ theorem borshDe_str_of_ok (hok : rows.all (borshDeRowOk limit) = true) {sh : Bor
   simp [hv]
 
 end Table2
+
+/-- The full row predicate implies the shape predicate the lemmas above are stated with. -/
+theorem all_shape_of_all_ok {limit : Nat} {rows : List BorshDeRow}
+    (h : rows.all (borshDeRowOk limit) = true) : rows.all (borshShapeRowOk limit) = true := by
+  rw [List.all_eq_true] at h ⊢
+  intro r hr
+  have := h r hr
+  simp only [borshDeRowOk, Bool.and_eq_true] at this
+  exact this.1.1
 
 end HipVerif.Codec
